@@ -31,6 +31,10 @@ type Case struct {
 func widened(o jgen.Opts) jgen.Opts {
 	o.ExoticNames, o.WildcardProjectImports, o.TwinNames, o.TwinReferrers = true, true, true, true
 	o.AnonBodies, o.AssignedCreations, o.CaseTwinNames, o.ScopeEnds, o.CallLayout, o.OwnTypeVars, o.ReturnCalls, o.FieldForms, o.InterfaceBodies, o.FieldChainCalls = true, true, true, true, true, true, true, true, true, true
+	// fifth seed batch: imports that mention a namesake of a class the file refers to
+	o.NamesakeImports = true
+	// more often than chance has it: a call on an earlier local right after a statement with scopes of its own
+	o.CallsAfterScopes = true
 	return o
 }
 
@@ -379,8 +383,79 @@ func receiverTypeLabels(p jgen.Project, u jgen.UnitTruth, e jgen.Event) []string
 			out = append(out, "receiver_class_reached_through_an_on_demand_import_only")
 		}
 	}
+	out = append(out, namesakeImportLabels(p, u, e)...)
 	if e.ExpPkg == "" {
 		out = append(out, "receiver_class_of_the_unnamed_package")
+	}
+	return out
+}
+
+// namesakeImportLabels classifies the declared class of a field / parameter / local receiver by what the
+// imports of the file say about its namesakes: read off the import lines and the classes of the project.
+func namesakeImportLabels(p jgen.Project, u jgen.UnitTruth, e jgen.Event) []string {
+	single, onDemand, staticOnDemand := false, map[string]bool{}, map[string]bool{}
+	for _, im := range u.Imports {
+		switch {
+		case im.Static:
+			if im.Wildcard {
+				staticOnDemand[im.Text] = true
+			}
+		case im.Wildcard:
+			onDemand[im.Text] = true
+		case im.Text == e.ExpPkg+"."+e.ExpNode:
+			single = true
+		}
+	}
+	inOwnPkg, inOnDemand, inOnDemandOtherCase, elsewhere, membersImported := false, 0, false, false, false
+	for _, o := range p.Units {
+		if o.Pkg == e.ExpPkg {
+			continue
+		}
+		if o.Name == e.ExpNode && staticOnDemand[o.FullName()] {
+			membersImported = true
+		}
+		if o.Name != e.ExpNode {
+			if strings.EqualFold(o.Name, e.ExpNode) && onDemand[o.Pkg] {
+				inOnDemandOtherCase = true
+			}
+			continue
+		}
+		switch {
+		case o.Pkg == u.Pkg:
+			inOwnPkg = true
+		case onDemand[o.Pkg]:
+			inOnDemand++
+		default:
+			elsewhere = true
+		}
+	}
+	var out []string
+	self := e.ExpPkg == u.Pkg && e.ExpNode == u.Name
+	switch {
+	case self && inOnDemand > 0:
+		out = append(out, "receiver_variable_of_the_enclosing_class_which_has_a_namesake_in_a_package_imported_on_demand")
+	case self:
+	case e.ExpPkg == u.Pkg && inOnDemand > 0:
+		out = append(out, "receiver_class_of_the_own_package_has_a_namesake_in_a_package_imported_on_demand")
+		if inOnDemand > 1 {
+			out = append(out, "receiver_class_of_the_own_package_has_namesakes_in_two_packages_imported_on_demand")
+		}
+	case e.ExpPkg == u.Pkg:
+	case single:
+		if inOwnPkg {
+			out = append(out, "receiver_class_of_a_single_type_import_has_a_namesake_in_the_own_package")
+		}
+		if inOnDemand > 0 {
+			out = append(out, "receiver_class_of_a_single_type_import_has_a_namesake_in_a_package_imported_on_demand")
+		}
+	case onDemand[e.ExpPkg] && elsewhere:
+		out = append(out, "receiver_class_reached_through_an_on_demand_import_only_has_a_namesake_in_a_package_not_imported")
+	}
+	if membersImported {
+		out = append(out, "receiver_class_has_a_namesake_whose_static_members_are_imported_on_demand")
+	}
+	if inOnDemandOtherCase && (self || e.ExpPkg == u.Pkg || single) {
+		out = append(out, "receiver_class_has_a_namesake_in_another_case_in_a_package_imported_on_demand")
 	}
 	return out
 }
@@ -517,7 +592,7 @@ func init() {
 	pbt.SetProperty("C02")
 	jgen.SetExcluded(pbt.Excluded)
 	pbt.Describe("rapid-generated conventional Java projects (jgen, 1-4 units) whose method and constructor bodies hold 0-15 statements (local declarations, assignments, if/else, for, for-each, while, switch, try/catch/finally, return, expression statements) nested up to depth 3; enhanced for statements over project classes, primitives (int, long, char, double), arrays (int[], String[]), String / Object / Integer and List<String> elements, with or without `final`; classic for statements whose loop variable is an int or a local variable of a project class declared in the header (for (Node n = first; n != null; n = n.next()), called in the header and the body, and in the scoped_names sub-check possibly named like a field it shadows inside the loop only); bodies of if / else / for / for-each / while / do written as a block or as a single statement without braces on the same or the next line (a call, an assignment or another loop / branch, hence `else if` chains), with invocations of every receiver kind (implicit, this, field, this.field, parameter, local, for-each variable, static, chained, on a fresh object, lambda body), `new` expressions, several per line, arguments over several lines, any indentation (blanks or tabs), string literals and comments with multi-byte characters in front of call sites; method names may be shared between the classes of a project, so that the callee of an unqualified call (declared before the caller, after it, or the caller itself) may also be declared by a class the file imports, by a class of the same package, by the project superclass or an implemented interface, and the callee of a call on a variable may also be a method of the enclosing class; files may carry static imports of project classes (`import static pkg.P.*;`, also as a mere decoy next to own methods named like static methods of P, and `import static pkg.P.m;`) and unqualified calls of the static methods so imported and of methods inherited from the project superclass (receiver kinds staticimport and inherited). "+
-		"Widened by the checklist audit: method, variable and class names with `_`, `$` (not in class names) and letters outside ASCII, packages with digits and underscores; a class may be named like a class of another package in another case (Order7 / ORDER7) and refer to it; two classes may bear one simple name in two packages (referred to from the own package, or through a single-type import where the own package has no such class), a third class of the package of one of them referring to its package mate; a project class of another package may be reached through an on-demand import of its package only (or next to its single-type import), among unrelated on-demand imports; the classes of one package may live in the unnamed package (no package declaration) when nothing refers to that package by name; files may be written with CR LF line ends; a class may hold a field of its own type, hence parameters, locals, loop variables, creations and static calls of the enclosing class; fields of project classes may be annotated (@Autowired, @Resource(name = \"x\") on the same or the line before), static / transient, and declared two to a declaration; a local variable may be initialised with an object of another class than its declared one, and a field / parameter / local of class type may be assigned a fresh object of any project class (`x = new T();`, `this.x = new T();`), also right before a call on it; anonymous classes written as arguments have one or two methods, on one line or over several, with creations, local declarations with a call on them, and calls on the fields, parameters and locals of the enclosing method inside them (all of them call sites of the enclosing function); a group of a switch may declare a local variable of a project class, which ends with the switch; lambdas may have a parameter typed with a project class (`(Foo x) -> x.m()`); in the scoped_names sub-check both may be named like a field of another class, which is called right after the switch / lambda; a blank or a comment may stand between a callee or created type and its `(`, two blanks, a comment or a line end between `new` and the type; generic creations (`new ArrayList<>()`, `new ArrayList<String>(n)`); return statements that carry an invocation or creation and early returns at the end of nested blocks; default and static methods of interfaces with bodies; calls on a static field of a library class (System.out.println(..), System.err.printf(..), java.lang.System.out.println(..): receiver kind fieldchain, name/position/order only); functions with 17-64 call sites occur regularly. The cli sub-check runs the same projects through `coca analysis` (directory named by -p DIR, --path DIR, --path=DIR, -p ., the working directory, or next to -i) and reads the model from coca_reporter/deps.json. "+
+		"Widened by the checklist audit: method, variable and class names with `_`, `$` (not in class names) and letters outside ASCII, packages with digits and underscores; a class may be named like a class of another package in another case (Order7 / ORDER7) and refer to it; two classes may bear one simple name in two packages (referred to from the own package, or through a single-type import where the own package has no such class), a third class of the package of one of them referring to its package mate; a project class of another package may be reached through an on-demand import of its package only (or next to its single-type import), among unrelated on-demand imports; the classes of one package may live in the unnamed package (no package declaration) when nothing refers to that package by name; files may be written with CR LF line ends; a class may hold a field of its own type, hence parameters, locals, loop variables, creations and static calls of the enclosing class; fields of project classes may be annotated (@Autowired, @Resource(name = \"x\") on the same or the line before), static / transient, and declared two to a declaration; a local variable may be initialised with an object of another class than its declared one, and a field / parameter / local of class type may be assigned a fresh object of any project class (`x = new T();`, `this.x = new T();`), also right before a call on it; anonymous classes written as arguments have one or two methods, on one line or over several, with creations, local declarations with a call on them, and calls on the fields, parameters and locals of the enclosing method inside them (all of them call sites of the enclosing function); a group of a switch may declare a local variable of a project class, which ends with the switch; lambdas may have a parameter typed with a project class (`(Foo x) -> x.m()`); in the scoped_names sub-check both may be named like a field of another class, which is called right after the switch / lambda; a blank or a comment may stand between a callee or created type and its `(`, two blanks, a comment or a line end between `new` and the type; generic creations (`new ArrayList<>()`, `new ArrayList<String>(n)`); return statements that carry an invocation or creation and early returns at the end of nested blocks; default and static methods of interfaces with bodies; calls on a static field of a library class (System.out.println(..), System.err.printf(..), java.lang.System.out.println(..): receiver kind fieldchain, name/position/order only); functions with 17-64 call sites occur regularly. Widened after the fifth seed batch (imports that mention a namesake): two or three classes bear one simple name more often, and a further class of the project may refer to any one of them from wherever it lives; the file that uses such a name may import on demand the packages that hold the namesakes (`import com.other.*;`) when the name means the class the file declares or a class of the file's own package (which hide every class imported on demand, JLS 6.4.1, so one or two such imports), or a class the file imports by a single-type import (which hides the namesake of the own package as well as those imported on demand); a class reached through an on-demand import only may have namesakes in packages the file does not import; the same on-demand imports next to a name that differs from a class of the imported package only in case; a file may import on demand the static members of a namesake (`import static com.other.Audit.*;`, which brings methods into scope and not the class, so the name keeps its meaning; none of these methods is called). A loop, branch, switch, try or synchronized statement is followed more often than chance has it by a call on a local variable of class type declared before it (still in sight, still of its declared type). The cli sub-check runs the same projects through `coca analysis` (directory named by -p DIR, --path DIR, --path=DIR, -p ., the working directory, or next to -i) and reads the model from coca_reporter/deps.json. "+
 		"Oracle: the ordered list of (kind, name, line, column) recorded by the printer for each function; recorded calls must match it one to one in order, each recorded column range must select the callee identifier (in characters), creations must carry the created type, and for implicit / field / parameter / local receivers whose declared type is a plain project or imported class the recorded package and node must be that class. Non-trivial = >= 3 invocations of >= 2 receiver kinds in the project, or two invocations on one line; distinct = hash of the (kind, receiver kind, column) sequence.",
 		"variable names are unique per project, so that a receiver name denotes one declaration (name reuse across files is C07's domain)",
 		"resolution is asserted only for the receiver kinds the statement lists; this., for-each, lambda, static and chained receivers are checked for name/position/order only",
@@ -526,7 +601,7 @@ func init() {
 		"a statement without braces is never a declaration (Java forbids it)",
 		"unqualified calls of inherited and statically imported methods have no implicit receiver of the enclosing type in the statement's sense: name/position/order only. A method is imported with `import static pkg.P.m;`, or called through an on-demand static import, only when the class neither declares nor inherits from its project superclass a method of that name (which would hide the imported one) and no second static import brings the same name in (the call would be ambiguous)",
 		"the declared type of a variable is what a call on it is recorded against, whatever object it was initialised with or assigned (the statement speaks of the declared type)",
-		"a simple class name means what the language says it means in the file: the enclosing class itself, else the class of a single-type import, else the class of the own package, else the class of a package imported on demand; names are case-sensitive. A class with a namesake in another package is never reached through an on-demand import",
+		"a simple class name means what the language says it means in the file: the enclosing class itself, else the class of a single-type import, else the class of the own package, else the class of a package imported on demand; names are case-sensitive. A name that two packages imported on demand hold is written only where the class itself, a single-type import or the own package decides it (otherwise it is ambiguous and the file does not compile)",
 		"the call sites inside the methods of an anonymous class written in a body are call sites of that body (as the plain anonymous classes of the first version already were); anonymous classes are not nested in one another and their methods take no parameters",
 		"not written, because the statement leaves their expected record open: explicit constructor calls `this(..)` / `super(..)`, method references, creations with a qualified type name (`new java.util.ArrayList<>()`, `new Outer.Inner()`), explicit type arguments on a call (`Util.<T>make()`), nested and several top-level types per file, initializer blocks; receivers declared after the method that uses them are outside the quantifier (\"declared at any earlier point\")")
 	pbt.Register("callsites", 400, 3000, gen, check)
